@@ -160,6 +160,11 @@ int main(int argc, char** argv) {
   BoxOpts ow = wide_layer(o.cf);
   std::vector<ApiGroup> wgroups = api_groups(ow);
   ctx.parallel(wgroups.size(), [&](uint64_t gi) { run_group(wgroups[gi], ow, [&](ApiCase& c) { four_runs(ctx, c, 2); }); }, "module entry points, wide shapes");
+  if (!args.thorough()) {  // the thorough large layer contains N = 65536 already
+    BoxOpts ot = top_layer();
+    std::vector<ApiGroup> tgroups = api_groups(ot);
+    ctx.parallel(tgroups.size(), [&](uint64_t gi) { run_group(tgroups[gi], ot, [&](ApiCase& c) { four_runs(ctx, c, 2); }); }, "module entry points, N = 65536");
+  }
   // strides are caller-chosen 64-bit values: limb offsets beyond 32-bit element / byte arithmetic.  The vector's extent is reserved
   // PROT_NONE, only the limbs are accessible: an access computed with a truncated offset faults or lands in a canary
   {
